@@ -150,6 +150,24 @@ def rule_S_RESET(ctx):
                     ctx.ob("S-RESET", "%s: reset dominates from_parse inside the loop" % b["name"], ok,
                            "a parser state is reused across loop iterations without a dominating reset", "%s:%s" % (b["span"]["file"], t["line"]))
                     ctx.fn(b)
+    # ... and closures handed to an iterator adaptor (`inputs.into_iter().map(|input| { state.reset_to(..); T::from_parse(&mut state) })`): the
+    # closure body is the loop body, the state is a captured `&mut`
+    for p, b in f.mir.items():
+        if "{closure" not in p:
+            continue
+        gg = mir.cfg(b)
+        for bi, t in gg.calls():
+            if mir.callee_name(t) in ("from_parse", "parse") and any(
+                    ENUM_STATE in (a.get("place", {}).get("ty", "")) and "&mut" in a["place"]["ty"] for a in t["args"] if a["k"] in ("Move", "Copy")):
+                # only a state that lives outside the closure (reached through the closure environment, argument 1) is reused
+                roots = [gg.resolve_operand(a)[0] for a in t["args"] if a["k"] in ("Move", "Copy") and ENUM_STATE in (a.get("place", {}).get("ty", ""))]
+                if not any(r == ("arg", 1) for r in roots):
+                    continue
+                n_loop_sites += 1
+                ok = any(mir.callee_name(tt) == "reset_to" and gg.dominates(bj, bi) for bj, tt in gg.calls())
+                ctx.ob("S-RESET", "%s: reset dominates from_parse inside the closure" % b["name"], ok,
+                       "a captured parser state is reused across calls of the closure without a dominating reset", "%s:%s" % (b["span"]["file"], t["line"]))
+                ctx.fn(b)
     ctx.floor("loops that reuse a parser state", n_loop_sites, 1)
 
 
@@ -196,6 +214,33 @@ def run(ctx):
                     ret_src = gpm.resolve_operand(st_["rv"]["op"])
         if ok_align and (ret_src is None or ret_src[0] != vec_root[0]):
             ok_align, why = False, "the returned vector is not the one results are pushed to"
+    if not loops_:
+        # the iterator form: `inputs.into_iter().map(|input| { .. from_parse((), &mut state) }).collect()` -- one result per input in input
+        # order iff nothing but `map` stands between the inputs and `collect`, and the closure's value is the from_parse result on every path
+        ret_src = None
+        for bi in sorted(gpm.reach):
+            t_ = pm["blocks"][bi]["term"]
+            if t_["k"] == "Call" and t_["dest"]["local"] == 0 and not t_["dest"]["proj"]:
+                ret_src = t_
+        chain, cur = [], ret_src
+        while cur is not None and cur["args"]:
+            chain.append(mir.callee_name(cur))
+            r_ = gpm.resolve_operand(cur["args"][0])
+            if r_[0][0] == "call" and not r_[1]:
+                cur = r_[0][1]
+                continue
+            chain.append(r_[0])
+            break
+        cls = [b_ for p_, b_ in f.mir.items() if p_.startswith(pm["path"] + "::{closure")]
+        ok_cl = False
+        if len(cls) == 1:
+            gc = mir.cfg(cls[0])
+            fps = [(bi, t_) for bi, t_ in gc.calls("from_parse")]
+            rets_c = [bi for bi in gc.reach if cls[0]["blocks"][bi]["term"]["k"] == "Return"]
+            ok_cl = len(fps) == 1 and fps[0][1]["dest"]["local"] == 0 and not fps[0][1]["dest"]["proj"] and all(gc.dominates(fps[0][0], r_) for r_ in rets_c) \
+                and not [1 for bi in gc.reach for s_ in cls[0]["blocks"][bi]["stmts"] if s_["k"] == "Assign" and s_["place"]["local"] == 0]
+        ok_align = chain[:3] == ["collect", "map", "into_iter"] and len(chain) == 4 and chain[3] == ("arg", 2) and ok_cl
+        why = "" if ok_align else "iterator form: adapter chain %s, closure value is the from_parse result: %s" % (chain, ok_cl)
     ctx.ob("S-ALIGN", "parse_multi: one pushed result per input", ok_align, why, "%s:%s" % (pm["span"]["file"], pm["span"]["line"]))
 
     rule_S_FIELDS(ctx)
